@@ -104,6 +104,7 @@ def design_configs(tier):
             ("api-1c-2r", dict(NClients=1, Rounds=2, MaxEvents=0, Api="TRUE", MaxPolls=1, MaxTicks=1, MaxFires=1, NTopics=2, SpinTopics="{2}"), 16),
             ("es-3c-1r-1e", dict(NClients=3, Rounds=1, MaxEvents=1), 16),
             ("es-2c-2r-1e", dict(NClients=2, Rounds=2, MaxEvents=1), 16),
+            ("api-2c", dict(NClients=2, Rounds=1, MaxEvents=0, Api="TRUE", MaxPolls=1, MaxTicks=1, MaxFires=1), 16),
         ]
     return q
 
@@ -604,9 +605,14 @@ def sub_stress(ctx):
 
 def sub_selftest(ctx):
     w = ctx["w"]
-    if not ctx.get("first_clean"):
-        raise Infra("self-test: no cleanly accepted EventSystem stress trace to corrupt")
-    plan, known = ctx["first_clean"]
+    # a dedicated run: one client, three rounds, one topic -- no join, no concurrent uninstall: always a clean trace
+    known = (ctx["present"] & set(ALL[:4])) | {"D18"}
+    plan = dict(mode="stress", api=False, clients=1, rounds=3, topics=1, events=6, polls=0, seed=ctx["seed"], steps=[],
+                out=os.path.join(w.sub("selftest"), "base"))
+    o = classify(ctx["bin"], plan, known)
+    if o["cls"] != "clean":
+        raise Infra("self-test: the single-client base trace was judged %s %s" % (o["cls"], o["detail"]))
+    ctx["traces_ok"] += 1
     with open(os.path.join(plan["out"], "trace.ndjson")) as f:
         lines = f.read().splitlines()
     evs = [json.loads(x) for x in lines]
